@@ -3,7 +3,7 @@
   exactly the last min(t, n) inputs, for every period, every finite stream, every prefix.
   Template for the other windowed indicators.
 -/
-import TaRs.Lemmas.SimpleMovingAverage
+import TaRs.Lemmas.Core.SimpleMovingAverage
 import TaRs.Lemmas.Ring
 import TaRs.Lemmas.XLemmas
 import TaRs.Lemmas.Machine
